@@ -1,6 +1,6 @@
 /-
-Model/RegularizationRect.lean — the neighbour table a rectangular mesh hands to the regularization
-schemes (property C07, composed with C06.f).
+Model/RegularizationRect.lean — the neighbour tables a rectangular / Delaunay mesh hands to the
+regularization schemes (property C07, composed with C06.f).
 
 Python: `structures/mesh/rectangular_2d.py: Mesh2DRectangular.neighbors` =
 `Neighbors(arr=neighbors.astype("int"), sizes=sizes.astype("int"))` of
@@ -19,6 +19,16 @@ def rectMeshNeighbors (H W : Nat) : List (List Nat) := pyTable (H * W) (rectNeig
 
 /-- `mapper.source_plane_mesh_grid.neighbors.sizes` of a rectangular mesh of shape `(H, W)` -/
 def rectMeshSizes (H W : Nat) : List Nat := (rectNeighbors H W).2
+
+/-- `mapper.source_plane_mesh_grid.neighbors` of a Delaunay mesh with `n` vertices (`Mesh2DDelaunay.neighbors`,
+    built from scipy's CSR pair `vertex_neighbor_vertices = (indptr, indices)`; C06's `Impl.delaunayNeighbors`),
+    as read by the regularization loops -/
+def delaunayMeshNeighbors (indptr indices : List Nat) (n : Nat) : List (List Nat) :=
+  pyTable n (delaunayNeighbors indptr indices n).1
+
+/-- `….neighbors.sizes` of that Delaunay mesh -/
+def delaunayMeshSizes (indptr indices : List Nat) (n : Nat) : List Nat :=
+  (delaunayNeighbors indptr indices n).2
 
 end Impl
 end Model
